@@ -6,6 +6,8 @@ pub mod stubs;
 pub mod ans;
 pub mod range;
 pub mod backends;
+pub mod bits;
+pub mod models;
 /// Pipeline self-test harnesses (not registered for any property).
 pub mod selftest {
     use crate::kx::*;
